@@ -22,11 +22,13 @@ import (
 
 // rep is one table replica: a real fsm.FSM on its own in-memory file system.
 type rep struct {
-	id      int
-	fs      vfs.FS
-	srt     fsm.SnapshotRecoveryType
-	f       sm.IOnDiskStateMachine
-	applied uint64
+	id       int
+	fs       vfs.FS
+	srt      fsm.SnapshotRecoveryType
+	f        sm.IOnDiskStateMachine
+	applied  uint64
+	nmu      sync.Mutex
+	notified []uint64
 }
 
 func newRep(id int, srt fsm.SnapshotRecoveryType) *rep {
@@ -36,7 +38,12 @@ func newRep(id int, srt fsm.SnapshotRecoveryType) *rep {
 }
 
 func (r *rep) open() uint64 {
-	r.f = fsm.New("tbl", "/data", r.fs, nil, nil, r.srt, nil)(10001, 1)
+	// the applied-index listener (what feeds the follower's notification queue): every call is recorded
+	r.f = fsm.New("tbl", "/data", r.fs, nil, nil, r.srt, func(i uint64) {
+		r.nmu.Lock()
+		r.notified = append(r.notified, i)
+		r.nmu.Unlock()
+	})(10001, 1)
 	idx, err := r.f.Open(nil)
 	if err != nil {
 		die("open: %v", err)
@@ -65,10 +72,16 @@ func (r *rep) update(tr *tracer.T, ents []logEntry) {
 		}
 		in[i] = sm.Entry{Index: e.I, Cmd: b}
 	}
+	r.nmu.Lock()
+	r.notified = nil
+	r.nmu.Unlock()
 	out, err := r.f.Update(in)
 	if err != nil {
 		die("update: %v", err)
 	}
+	r.nmu.Lock()
+	notified := append([]uint64{}, r.notified...)
+	r.nmu.Unlock()
 	evs := make([]map[string]any, len(ents))
 	for i, e := range ents {
 		res := regattapb.CommandResult{}
@@ -82,7 +95,7 @@ func (r *rep) update(tr *tracer.T, ents []logEntry) {
 	}
 	r.applied = ents[len(ents)-1].I
 	idx, lidx := r.indices()
-	tr.Emit(map[string]any{"ev": "update", "rep": r.id, "ents": evs, "idx": idx, "lidx": lidx})
+	tr.Emit(map[string]any{"ev": "update", "rep": r.id, "ents": evs, "idx": idx, "lidx": lidx, "notified": notified})
 }
 
 func (r *rep) indices() (uint64, uint64) {
